@@ -1,6 +1,7 @@
 (* The estimator protocol of BaseART (artlib/common/BaseART.py:17-107): a
    params dict, attribute access mirroring it, get_params, set_params
-   (assign, then validate); and a small ownership model of stored arrays. *)
+   (validate the new values, then assign - /repo fix "a rejected set_params call
+   leaves the estimator unchanged"); and a small ownership model of stored arrays. *)
 From Coq Require Import List Bool Arith String QArith.
 Import ListNotations.
 Open Scope string_scope.
@@ -19,8 +20,8 @@ Section Protocol.
   (* __getattr__: a key of params reads params; anything else is an AttributeError *)
   Definition getattr (p : params) (k : string) : option V := pget p k.
 
-  (* set_params with keyword arguments kw: keys are processed in order; an unknown key raises at once (earlier
-     assignments stay); after all assignments validate_params is run on the new values *)
+  (* set_params with keyword arguments kw: the keys are looked up in order (an unknown key raises), the new values
+     are collected, validate_params is run on them, and only an accepted call installs them *)
   Fixpoint assign (p : params) (kw : list (string * V)) : params * bool :=
     match kw with
     | [] => (p, true)
@@ -29,6 +30,12 @@ Section Protocol.
   Definition set_params (p : params) (kw : list (string * V)) : params * bool :=
     match kw with
     | [] => (p, true)                                  (* "if not params: return self" *)
+    | _ => let '(p', ok) := assign p kw in if ok && pvalid p' then (p', true) else (p, false)
+    end.
+  (* the code before the fix: assign first, validate afterwards (the rejected values stay installed) *)
+  Definition set_params_before_fix (p : params) (kw : list (string * V)) : params * bool :=
+    match kw with
+    | [] => (p, true)
     | _ => let '(p', ok) := assign p kw in if ok then (p', pvalid p') else (p', false)
     end.
   Definition get_params (p : params) : params := p.
